@@ -235,7 +235,7 @@ def _obs():
                       param={'detect': det, 'repair': 1}, timeout=300, stubs=['symdf']))
     obs.append(Ob('K3', 'k3_date_languages', 'every text str(date/datetime) can produce is accepted by the get_date '
                   'regex of matching arity and by no earlier one', 'all strings (regular-language inclusion; \\d read as '
-                  '[0-9])', engine='z3', timeout=120, twin=False))
+                  '[0-9])', engine='z3', timeout=600, twin=False))
     for y, mo in ((2024, 2), (1, 1), (9999, 12)):
         obs.append(Ob('K3', 'k3_get_date_fields', 'get_date(str(dt)) == dt: the captured groups are converted in order',
                       'year %d month %d fixed; day 1..28, hour, minute, second symbolic' % (y, mo),
